@@ -3123,14 +3123,6 @@ class Mailbox:
         if not mbox_name_is_inside_maildir(new_name):
             raise InvalidMailbox(f"Invalid mailbox name: '{new_name}'")
 
-        # Like CREATE, create the superior mailboxes of the new name if they
-        # do not exist yet (rfc3501 §6.3.5). Otherwise moving the folder
-        # fails in the file system.
-        #
-        new_parent = os.path.dirname(new_name)
-        if new_parent and not server.folder_exists(new_parent):
-            await Mailbox.create(new_parent, server)
-
         # A mailbox can not be moved underneath itself.
         #
         if new_name.startswith(f"{mbox.name}/"):
@@ -3146,6 +3138,14 @@ class Mailbox:
             pass
         else:
             raise MailboxExists(f"Destination mailbox '{new_name}' exists")
+
+        # Like CREATE, create the superior mailboxes of the new name if they
+        # do not exist yet (rfc3501 §6.3.5). Otherwise moving the folder
+        # fails in the file system.
+        #
+        new_parent = os.path.dirname(new_name)
+        if new_parent and not server.folder_exists(new_parent):
+            await Mailbox.create(new_parent, server)
 
         # Inbox is handled specially.
         #
